@@ -41,13 +41,15 @@ package config
 //@ func AddUniqueIndex props=C16
 //@   requires table != nil
 //@   ensures [default-covers] old(len((*table).Unique)) == 0 ==> (forall c int :: 0 <= c && c < 7 && hasCol(table, idcol(c)) ==> len((*table).Unique) == 1 && (exists q int :: 0 <= q && q < len((*table).Unique[0]) && (*table).Unique[0][q] == idcol(c)))
-//@   ensures [default-only] old(len((*table).Unique)) == 0 && len((*table).Unique) > 0 ==> len((*table).Unique) == 1 && (forall q int :: 0 <= q && q < len((*table).Unique[0]) ==> (exists c int :: 0 <= c && c < 7 && (*table).Unique[0][q] == idcol(c) && hasCol(table, idcol(c))))
+//@   ensures [default-single] old(len((*table).Unique)) == 0 && len((*table).Unique) > 0 ==> len((*table).Unique) == 1
+//@   ensures [default-only] old(len((*table).Unique)) == 0 && len((*table).Unique) > 0 ==> (forall q int :: 0 <= q && q < len((*table).Unique[0]) ==> (exists c int :: 0 <= c && c < 7 && (*table).Unique[0][q] == idcol(c) && hasCol(table, idcol(c))))
 //@   ensures [user-key-kept] old(len((*table).Unique)) > 0 ==> (*table).Unique == old((*table).Unique)
 //@   ensures [columns-kept] (*table).Columns == old((*table).Columns)
 //@   loop#0 invariant len(possible) == 7 && possible[0] == "ig_name" && possible[1] == "src_name" && possible[2] == "block_num" && possible[3] == "tx_idx" && possible[4] == "log_idx" && possible[5] == "abi_idx" && possible[6] == "trace_action_idx"
+//@   loop#0 invariant forall c int :: 0 <= c && c < 7 ==> possible[c] == idcol(c)
 //@   loop#0 invariant cap(uidx) == 0 || base(uidx) != base(possible)
-//@   loop#0 invariant forall c int :: 0 <= c && c <= rangeindex && hasCol(table, possible[c]) ==> (exists q int witness len(uidx) - 1 :: 0 <= q && q < len(uidx) && uidx[q] == possible[c])
-//@   loop#0 invariant forall q int :: 0 <= q && q < len(uidx) ==> (exists c int witness rangeindex :: 0 <= c && c <= rangeindex && uidx[q] == possible[c] && hasCol(table, possible[c]))
+//@   loop#0 invariant forall c int :: 0 <= c && c <= rangeindex && hasCol(table, idcol(c)) ==> (exists q int witness len(uidx) - 1 :: 0 <= q && q < len(uidx) && uidx[q] == idcol(c))
+//@   loop#0 invariant forall q int :: 0 <= q && q < len(uidx) ==> (exists c int witness rangeindex :: 0 <= c && c <= rangeindex && uidx[q] == idcol(c) && hasCol(table, idcol(c)))
 //@   loop#1 invariant forall j0 int :: 0 <= j0 && j0 <= rangeindex ==> (*table).Columns[j0].Name != possible[i]
 
 // C16: AddRequiredFields adds the identity columns an integration's shape
@@ -93,8 +95,6 @@ package config
 //@   loop#0 invariant len((*ig).Block) >= old(len((*ig).Block)) && (forall k int :: 0 <= k && k < old(len((*ig).Block)) ==> bdAt(ig, k) == old(bdAt(ig, k)))
 //@   loop#0 invariant igHasCol(ig, "ig_name") && igHasCol(ig, "src_name") && igHasCol(ig, "block_num") && igHasCol(ig, "tx_idx") && igHasBD(ig, "ig_name") && igHasBD(ig, "src_name") && igHasBD(ig, "block_num") && igHasBD(ig, "tx_idx")
 //@   loop#0 invariant len(callresult(Selected, 0)) > 0 ==> igHasCol(ig, "log_idx") && igHasBD(ig, "log_idx")
-//@   loop#0 invariant len((*ig).Table.Columns) >= pre(len((*ig).Table.Columns)) && (forall k int :: 0 <= k && k < pre(len((*ig).Table.Columns)) ==> colAt(ig, k) == pre(colAt(ig, k)))
-//@   loop#0 invariant len((*ig).Block) >= pre(len((*ig).Block)) && (forall k int :: 0 <= k && k < pre(len((*ig).Block)) ==> bdAt(ig, k) == pre(bdAt(ig, k)))
 //@   loop#0 invariant (exists k0 int :: 0 <= k0 && k0 <= rangeindex && !callresult(Selected, 1)[k0].Indexed) ==> igHasCol(ig, "abi_idx") && igHasBD(ig, "abi_idx")
 //@   loop#1 invariant ig != nil && ig == pre(ig)
 //@   loop#1 invariant len((*ig).Table.Columns) >= old(len((*ig).Table.Columns)) && (forall k int :: 0 <= k && k < old(len((*ig).Table.Columns)) ==> colAt(ig, k) == old(colAt(ig, k)))
@@ -102,8 +102,6 @@ package config
 //@   loop#1 invariant igHasCol(ig, "ig_name") && igHasCol(ig, "src_name") && igHasCol(ig, "block_num") && igHasCol(ig, "tx_idx") && igHasBD(ig, "ig_name") && igHasBD(ig, "src_name") && igHasBD(ig, "block_num") && igHasBD(ig, "tx_idx")
 //@   loop#1 invariant len(callresult(Selected, 0)) > 0 ==> igHasCol(ig, "log_idx") && igHasBD(ig, "log_idx")
 //@   loop#1 invariant (exists k0 int :: 0 <= k0 && k0 < len(callresult(Selected, 1)) && !callresult(Selected, 1)[k0].Indexed) ==> igHasCol(ig, "abi_idx") && igHasBD(ig, "abi_idx")
-//@   loop#1 invariant len((*ig).Table.Columns) >= pre(len((*ig).Table.Columns)) && (forall k int :: 0 <= k && k < pre(len((*ig).Table.Columns)) ==> colAt(ig, k) == pre(colAt(ig, k)))
-//@   loop#1 invariant len((*ig).Block) >= pre(len((*ig).Block)) && (forall k int :: 0 <= k && k < pre(len((*ig).Block)) ==> bdAt(ig, k) == pre(bdAt(ig, k)))
 
 // C16: a configuration is accepted only if every selected input, every block
 // field and every notification column has a table column.
